@@ -16,7 +16,10 @@ for name in $NAMES; do
   rc=$?
   n=$(grep -c "^VIOLATION" "$scratch/out.log")
   cls=$(grep "violation classes" "$scratch/out.log" | cut -c1-160)
-  if [ "$rc" = 1 ]; then echo "$name: detected ($prop, $n reported) $cls"; else echo "$name: NOT detected (exit $rc) $(grep "^$prop quick" $scratch/out.log | cut -c1-120)"; FAIL=1; fi
+  expect=$(/venv/bin/python -c "import json;print([m.get('expect','detected') for m in json.load(open('selftest/mutants/index.json')) if m['name']=='$name'][0])")
+  if [ "$rc" = 1 ]; then echo "$name: detected ($prop, $n reported) $cls"
+  elif [ "$expect" = "not-detected" ]; then echo "$name: not detected, as documented (exit $rc)"
+  else echo "$name: NOT detected (exit $rc) $(grep "^$prop quick" $scratch/out.log | cut -c1-120)"; FAIL=1; fi
   rm -rf "$scratch"
 done
 exit $FAIL
